@@ -39,6 +39,21 @@ CHECKS = {
         "united with the published construction.",
         design="4/C05",
     ),
+    "C15": dict(
+        text="For every graph of the bound, every size limit k (None, 0..n-2, n) and three enumeration variants, the returned set of "
+        "judgements is compared pair by pair with minimum separating-set sizes computed by brute force with the path-definition "
+        "oracle: exactly one canonical, true, minimum-size judgement per separable pair within the limit, none otherwise; "
+        "repeated under several hash seeds.",
+        note="Trusted: path-definition separation oracle; k is read inclusively (docstring: longest set of conditions to investigate).",
+        design="4/C15",
+    ),
+    "C20": dict(
+        text="Every (a, b, C) on every ADMG of the bound is passed to are_sigma_separated and compared with the path-definition "
+        "d-separation oracle; on every cyclic directed mixed graph of the bound the verdict is compared with the reversed call "
+        "(symmetry) and with the adjacency rule.",
+        note="Trusted: path-definition separation oracle. Cyclic graphs: only symmetry and adjacency are judged, as the property states.",
+        design="4/C20",
+    ),
     "C17": dict(
         text="Every (graph, linear extension, district T, bidirected-connected C inside T) within the bound is passed to "
         "identify_district_variables with Q[T] from compute_c_factor and as the Lemma-1 product; results are evaluated exactly on "
